@@ -156,9 +156,10 @@ def c03_grow(ctx):
     prog = _win(ctx)
     if prog is None:
         return
-    g = prog.fn(RAW + "RawCommunicator::read_into::{closure#0}")
-    ri = prog.one(RAW + "RawCommunicator::read_into")
-    if g is None:
+    # modular view: the local closure as a unit, its call sites by their results (the bodies as written, before closure lowering)
+    g = prog.orig_fns.get(RAW + "RawCommunicator::read_into::{closure#0}")
+    ri = prog.orig_fns.get(RAW + "RawCommunicator::read_into")
+    if g is None or ri is None:
         ctx.missing("R03.7", "grow_result closure")
         return
     T = M.Terms(g)
